@@ -23,7 +23,8 @@ from common import Check
 import population
 
 THEOREMS = ["Nmfu.C10_ok_consumes_chunk", "Nmfu.C10_cursor_within_chunk", "Nmfu.C10_fail_absorbing", "Nmfu.C10_fail_absorbing_empty_chunk",
-            "Nmfu.C10_yield_resume_exact", "Nmfu.noStuck_of_leavesOK", "Nmfu.C10_end_fail_is_final"]
+            "Nmfu.C10_yield_resume_exact", "Nmfu.noStuck_of_leavesOK", "Nmfu.C10_end_fail_is_final", "Nmfu.C10_end_fail_then_empty_chunk",
+            "Nmfu.emptyFails_failTarget"]
 
 
 def parse(lines):
@@ -64,6 +65,8 @@ def work(job):
     wf = rtdiff.model().ask("wf", case.opts, case.mt, timeout=60)
     if "endFailOK=false" in wf:
         res["corr"].append({"kind": "endFailOK fails: some FAIL of end() does not leave the fail state behind", "args": case.args})
+    if "endFailExact=false" in wf:
+        res["corr"].append({"kind": "endFailExact fails: some FAIL of end() leaves another index than the one feed's empty-chunk test names", "args": case.args})
     has_yield = bool(list(case.outcome.cctx.yield_codes))
     # the reference semantics of the program, when it can be expressed and the machine was shown equivalent to it
     ref_ps = None
@@ -96,6 +99,9 @@ def work(job):
         hist = [("A", opsA, case), ("B", opsB, case), ("C", opsC, case)]
         if zl is not None and zl.ok:
             hist.append(("D", opsD, zl))
+            if zl.eof():
+                # history E: end() after a prefix, then empty chunks (a FAIL reported by end() is final for those as well)
+                hist.append(("E", ["start"] + ([f"feedy:{data[:k].hex()}"] if k else []) + ["end", "feedy:", f"feedy:{data[k:].hex() or '00'}", "feedy:", "end"], zl))
         for tag, ops, case_ in hist:
             cl, status, err = case_.run_c(ops)
             res["histories"] += 1
